@@ -53,7 +53,7 @@ EXTRA_WRAP = ["-Wl,--wrap=" + w for w in
 # name -> kind.  c1: complex->complex  c2: (complex,complex)  cr: (complex,real)  rc: real->complex  r1: complex->real
 # rr: (real,real)->complex.  Every c1/c2/cr function also exists in place as <name>_ (same model function).
 KIND = {}
-for _n in ("conj neg inv sqrt exp log log2 log10 sin cos tan sec csc cot asin acos atan asec acsc acot sinh cosh tanh sech "
+for _n in ("conj neg inv proj sqrt exp log log2 log10 sin cos tan sec csc cot asin acos atan asec acsc acot sinh cosh tanh sech "
            "csch coth asinh acosh atanh asech acsch acoth").split():
     KIND[_n] = "c1"
 for _n in "add sub mul div pow logb".split():
